@@ -73,3 +73,8 @@ claim("C14",
       "For every prefix of every visited history over txt/uni/arr/xml-children (Bytes and Utf16 offsets, 2..3 replicas) a sticky index is created at every index with both associations (plus type-scoped ones), round-tripped through binary and JSON, its anchor checked, and then resolved on every later state of every replica and on every lattice node of the final pool that has integrated the anchor; the offset must equal the tombstone-aware position computed from the hook's item sequence.",
       "expected positions from the verif hook's item sequence; anchors inside deleted containers out of scope",
       "DESIGN.md 4/C14")
+claim("C20",
+      "bounded-exhaustive enumeration of edit/quote/sync sequences on two real replicas + subset-lattice delivery, dereference judged against the tombstone-aware item sequence",
+      "All sequences with <= L operations (quick 4, thorough 5..6) from {edits on the source at {0,mid,end}, quoting every range kind over the current elements (array and text) or linking a map entry, overwriting/removing the linked entry, deleting the quotation, causal syncs} are executed and state-matched; after every step on every replica holding the quotation, and on every lattice node of the final pool for a fresh replica, unquote/get_string/try_deref_value must equal the visible elements between the boundary ids in the hook's item sequence; at quoting time the author must see exactly the requested slice; deleting the quotation must not change the source; the quotation's observer must fire when its content changes. Six narrow known findings (block-granular dereference when a boundary is inside a block; five gaps of the link bookkeeping behind observers) are reported as KNOWN-FINDING with structural predicates.",
+      "ranges that are empty when quoted are out of scope; expected ranges from the verif hook's item sequence",
+      "DESIGN.md 4/C20")
